@@ -230,6 +230,153 @@ pub fn sample_tables(rng: &mut Rng, n: usize, per_kind: usize) -> Vec<Vec<u64>> 
     v
 }
 
+// ---------------------------------------------------------------------------------------------- construction routes
+// The properties quantify over functions, however they were built. `mkr` returns the function denoted by the well-formed
+// table `t`, built through one of several routes of the public API (constructor, complement of the complement in every
+// syntactic form, text round trip, Shannon recomposition, involutive transforms, neutral operands, the other type and
+// back, assignment by assignment). On a tree where C02 holds all the routes return the very same value, so the
+// transcripts do not depend on the route; on a tree where one route leaves a stale representation, every generator
+// that uses `mkr` exercises its own operations on it. The route choice has its own generator state, so that the
+// generators' random draws (and the pairing of the two types in C10) do not depend on it.
+thread_local! {
+    static ROUTE_RNG: std::cell::RefCell<Rng> = std::cell::RefCell::new(Rng(0x5EED_0F_2007E5));
+    static ROUTE_COUNT: std::cell::RefCell<[u64; 16]> = std::cell::RefCell::new([0; 16]);
+}
+pub fn route_seed(seed: u64) {
+    ROUTE_RNG.with(|r| *r.borrow_mut() = Rng(seed.wrapping_mul(0x9E3779B97F4A7C15) ^ 0x2007E5));
+}
+pub fn route_counts() -> [u64; 16] {
+    ROUTE_COUNT.with(|r| *r.borrow())
+}
+pub fn mkr<X: L>(n: usize, t: &[u64]) -> X {
+    mkr_d::<X>(n, t, 0)
+}
+/// `t` with variable `i` fixed to `b` (an n-variable function that does not depend on variable i), bit by bit
+fn cof_table(n: usize, t: &[u64], i: usize, b: bool) -> Vec<u64> {
+    let mut g = vec![0u64; tsize(n)];
+    for y in 0..(1usize << n) {
+        let x = if b { y | (1 << i) } else { y & !(1 << i) };
+        if (t[x >> 6] >> (x & 63)) & 1 == 1 {
+            g[y >> 6] |= 1 << (y & 63);
+        }
+    }
+    g
+}
+/// routes compose: the operands of a route are themselves built through routes (two levels below the top), so that a
+/// stale representation left by one operation meets the operations that move bits around (a chain of up to three
+/// calls, e.g. complement - recomposition - recomposition)
+fn mkr_d<X: L>(n: usize, t: &[u64], depth: usize) -> X {
+    let (r, k1, k2, k3) = ROUTE_RNG.with(|g| {
+        let mut g = g.borrow_mut();
+        (g.below(16), g.next() as usize, g.next() as usize, g.next())
+    });
+    let plain = || X::mk(n, t);
+    // an operand: through a route again while the chain is short
+    let sub = |tt: &[u64]| -> X { if depth < 2 { mkr_d::<X>(n, tt, depth + 1) } else { X::mk(n, tt) } };
+    let id: Vec<usize> = (0..n).collect();
+    let built: Option<X> = match r {
+        6 | 7 if depth > 0 => call(|| {
+            // inside a chain the plain constructor is less likely than at the top: a second recomposition instead
+            if n == 0 {
+                return plain();
+            }
+            let i = k1 % n;
+            let c0 = sub(&cof_table(n, t, i, false));
+            let c1 = sub(&cof_table(n, t, i, true));
+            X::from_cofactors_(&c0, &c1, i)
+        }),
+        8 | 9 => call(|| {
+            let nt: Vec<u64> = t.iter().map(|w| !w & nvmask(n)).collect();
+            let y = sub(&nt);
+            let forms = X::not_forms(&y);
+            let f = &forms[k1 % forms.len()].1;
+            f(&y)
+        }),
+        10 => call(|| {
+            let y = plain();
+            X::from_hex_(n, &y.to_hex_()).unwrap()
+        }),
+        11 if n > 0 => call(|| {
+            let i = k1 % n;
+            if k2 & 1 == 0 {
+                let y = plain();
+                let (c0, c1) = y.cofactors_(i);
+                X::from_cofactors_(&c0, &c1, i)
+            } else {
+                let c0 = sub(&cof_table(n, t, i, false));
+                let c1 = sub(&cof_table(n, t, i, true));
+                X::from_cofactors_(&c0, &c1, i)
+            }
+        }),
+        12 if n > 0 => call(|| {
+            let i = k1 % n;
+            let j = k2 % n;
+            if k1 & 0x100 == 0 {
+                sub(&transform_table(n, t, &id, 1 << i, false)).flip_(i)
+            } else {
+                let mut p = id.clone();
+                p.swap(i, j);
+                sub(&transform_table(n, t, &p, 0, false)).swap_(i, j)
+            }
+        }),
+        13 => call(|| {
+            // t = a op b with a, b built through routes: a ^ (t ^ a), (t | r) & (t | !r), (t & r) | (t & !r)
+            let forms = X::bin_forms();
+            let k = k1 % forms.len();
+            let (op, _, f) = &forms[k];
+            let mut g = Rng(k3);
+            let rnd: Vec<u64> = (0..tsize(n)).map(|_| g.next() & nvmask(n)).collect();
+            let (ta, tb): (Vec<u64>, Vec<u64>) = match *op {
+                "xor" => (rnd.clone(), t.iter().zip(rnd.iter()).map(|(x, r)| x ^ r).collect()),
+                "and" => (t.iter().zip(rnd.iter()).map(|(x, r)| x | r).collect(),
+                          t.iter().zip(rnd.iter()).map(|(x, r)| (x | !r) & nvmask(n)).collect()),
+                _ => (t.iter().zip(rnd.iter()).map(|(x, r)| x & r).collect(),
+                      t.iter().zip(rnd.iter()).map(|(x, r)| x & !r).collect()),
+            };
+            let a = sub(&ta);
+            let b = sub(&tb);
+            f(&a, &b)
+        }),
+        14 => call(|| plain().via_other_()),
+        15 if n <= 7 => call(|| {
+            let mut y = if k1 & 1 == 0 { X::zero_(n) } else { X::one_(n) };
+            for m in 0..(1usize << n) {
+                let v = (t[m >> 6] >> (m & 63)) & 1 == 1;
+                if k1 & 2 == 0 {
+                    y.set_value_(m, v);
+                } else if v {
+                    y.set_bit_(m);
+                } else {
+                    y.unset_bit_(m);
+                }
+            }
+            y
+        }),
+        15 if n > 1 => call(|| {
+            let i = k1 % (n - 1);
+            let mut p = id.clone();
+            p.swap(i, i + 1);
+            let mut y = sub(&transform_table(n, t, &p, 0, false));
+            y.swap_adjacent_(i)
+        }),
+        _ => None,
+    };
+    ROUTE_COUNT.with(|c| c.borrow_mut()[if built.is_some() { r } else { 0 }] += 1);
+    built.unwrap_or_else(plain)
+}
+/// the function that `x` denotes, as observed through `value()` on every assignment, printed as its well-formed table:
+/// the form in which arguments are recorded (results are recorded with `fl`, the raw blocks)
+pub fn fa<X: L>(x: &X) -> String {
+    let n = x.nvars();
+    let mut t = vec![0u64; tsize(n)];
+    for m in 0..(1usize << n) {
+        if x.value_(m) {
+            t[m >> 6] |= 1 << (m & 63);
+        }
+    }
+    ftab(n, &t)
+}
+
 // ---------------------------------------------------------------------------------------------- C01
 fn c01<X: L>(c: &mut Ctx, n: usize) {
     let ty = X::TY;
@@ -261,22 +408,23 @@ fn c01<X: L>(c: &mut Ctx, n: usize) {
     let nforms = X::not_forms(&X::zero_(n));
     let bforms = X::bin_forms();
     for (a, b) in pairs.iter() {
-        let xa = X::mk(n, a);
-        let xb = X::mk(n, b);
+        let xa = mkr::<X>(n, a);
+        let xb = mkr::<X>(n, b);
         // borrowed operands must come back unchanged: their printed form before and after every call is compared
         // (an `operand_changed` line has no counterpart in the model and is reported as such)
-        let before = (fl(&xa), fl(&xb));
+        let before = (fa(&xa), fa(&xb));
+        let raw = (fl(&xa), fl(&xb));
         for (form, f) in nforms.iter() {
             let r = call(|| f(&xa));
             c.emit(&format!("not.{}", form), ty, &[before.0.clone()], r.map(|r| fl(&r)));
-            if (fl(&xa), fl(&xb)) != before {
+            if (fl(&xa), fl(&xb)) != raw {
                 c.emit(&format!("operand_changed.not.{}", form), ty, &[before.0.clone(), fl(&xa)], Some("changed".into()));
             }
         }
         for (op, form, f) in bforms.iter() {
             let r = call(|| f(&xa, &xb));
             c.emit(&format!("{}.{}", op, form), ty, &[before.0.clone(), before.1.clone()], r.map(|r| fl(&r)));
-            if (fl(&xa), fl(&xb)) != before {
+            if (fl(&xa), fl(&xb)) != raw {
                 c.emit(&format!("operand_changed.{}.{}", op, form), ty, &[before.0.clone(), before.1.clone(), fl(&xa), fl(&xb)], Some("changed".into()));
             }
         }
@@ -305,49 +453,55 @@ fn c03<X: L>(c: &mut Ctx, n: usize) {
         sample_tables(&mut c.rng, n, k)
     };
     for t in tables.iter() {
-        let x = X::mk(n, t);
+        let x = mkr::<X>(n, t);
         for i in 0..n {
             let r = call(|| x.flip_(i));
-            c.emit("flip", ty, &[fl(&x), fx(i)], r.map(|r| fl(&r)));
+            c.emit("flip", ty, &[fa(&x), fx(i)], r.map(|r| fl(&r)));
             let r = call(|| {
                 let mut y = x.clone();
                 y.flip_inplace_(i);
                 y
             });
-            c.emit("flip.inplace", ty, &[fl(&x), fx(i)], r.map(|r| fl(&r)));
+            c.emit("flip.inplace", ty, &[fa(&x), fx(i)], r.map(|r| fl(&r)));
             let r = call(|| x.cofactors_(i));
-            c.emit("cofactors", ty, &[fl(&x), fx(i)], r.as_ref().map(|(a, b)| format!("{}|{}", fl(a), fl(b))));
+            c.emit("cofactors", ty, &[fa(&x), fx(i)], r.as_ref().map(|(a, b)| format!("{}|{}", fl(a), fl(b))));
             if let Some((c0, c1)) = r {
                 let r2 = call(|| X::from_cofactors_(&c0, &c1, i));
-                c.emit("from_cofactors", ty, &[fl(&c0), fl(&c1), fx(i)], r2.map(|r| fl(&r)));
+                c.emit("from_cofactors", ty, &[fa(&c0), fa(&c1), fx(i)], r2.map(|r| fl(&r)));
             }
             // from_cofactors of two unrelated functions
-            let other = X::mk(n, &gen_table(&mut c.rng, n, Kind::Uniform));
+            let other = mkr::<X>(n, &gen_table(&mut c.rng, n, Kind::Uniform));
             let r2 = call(|| X::from_cofactors_(&x, &other, i));
-            c.emit("from_cofactors", ty, &[fl(&x), fl(&other), fx(i)], r2.map(|r| fl(&r)));
+            c.emit("from_cofactors", ty, &[fa(&x), fa(&other), fx(i)], r2.map(|r| fl(&r)));
             if i + 1 < n {
                 let r = call(|| {
                     let mut y = x.clone();
-                    y.swap_adjacent_(i)
+                    let r = y.swap_adjacent_(i);
+                    (r, y)
                 });
-                c.emit("swap_adjacent", ty, &[fl(&x), fx(i)], r.map(|r| fl(&r)));
+                // the copying form takes `&mut self`: the receiver must come back as it was
+                if let Some((_, y)) = r.as_ref() {
+                    c.emit("swap_adjacent.receiver", ty, &[fa(&x), fx(i)], Some(fl(y)));
+                }
+                let r = r.map(|(r, _)| r);
+                c.emit("swap_adjacent", ty, &[fa(&x), fx(i)], r.map(|r| fl(&r)));
                 let r = call(|| {
                     let mut y = x.clone();
                     y.swap_adjacent_inplace_(i);
                     y
                 });
-                c.emit("swap_adjacent.inplace", ty, &[fl(&x), fx(i)], r.map(|r| fl(&r)));
+                c.emit("swap_adjacent.inplace", ty, &[fa(&x), fx(i)], r.map(|r| fl(&r)));
             }
             for j in 0..n {
                 let r = call(|| x.swap_(i, j));
-                c.emit("swap", ty, &[fl(&x), fx(i), fx(j)], r.map(|r| fl(&r)));
+                c.emit("swap", ty, &[fa(&x), fx(i), fx(j)], r.map(|r| fl(&r)));
                 if (i + j) % 3 == 0 {
                     let r = call(|| {
                         let mut y = x.clone();
                         y.swap_inplace_(i, j);
                         y
                     });
-                    c.emit("swap.inplace", ty, &[fl(&x), fx(i), fx(j)], r.map(|r| fl(&r)));
+                    c.emit("swap.inplace", ty, &[fa(&x), fx(i), fx(j)], r.map(|r| fl(&r)));
                 }
             }
         }
@@ -359,15 +513,15 @@ fn canon_all<X: L>(c: &mut Ctx, x: &X, p: bool, nn: bool, npn: bool) {
     let ty = X::TY;
     if p {
         let r = call(|| x.p_canon_());
-        c.emit("p_canon", ty, &[fl(x)], r.map(|(l, perm)| format!("{}|{}", fl(&l), fu8s(&perm))));
+        c.emit("p_canon", ty, &[fa(x)], r.map(|(l, perm)| format!("{}|{}", fl(&l), fu8s(&perm))));
     }
     if nn {
         let r = call(|| x.n_canon_());
-        c.emit("n_canon", ty, &[fl(x)], r.map(|(l, m)| format!("{}|{:x}", fl(&l), m)));
+        c.emit("n_canon", ty, &[fa(x)], r.map(|(l, m)| format!("{}|{:x}", fl(&l), m)));
     }
     if npn {
         let r = call(|| x.npn_canon_());
-        c.emit("npn_canon", ty, &[fl(x)], r.map(|(l, perm, m)| format!("{}|{}|{:x}", fl(&l), fu8s(&perm), m)));
+        c.emit("npn_canon", ty, &[fa(x)], r.map(|(l, perm, m)| format!("{}|{}|{:x}", fl(&l), fu8s(&perm), m)));
     }
 }
 
@@ -389,14 +543,14 @@ fn c04<X: L>(c: &mut Ctx, n: usize) {
     };
     if count == usize::MAX {
         for t in all_tables(n) {
-            let x = X::mk(n, &t);
+            let x = mkr::<X>(n, &t);
             canon_all(c, &x, p, nn, npn);
         }
     } else {
         for k in 0..count {
             let kind = KINDS[k % KINDS.len()];
             let t = gen_table(&mut c.rng, n, kind);
-            let x = X::mk(n, &t);
+            let x = mkr::<X>(n, &t);
             canon_all(c, &x, p, nn, npn);
             // canonizing a representative must return it unchanged: feed representatives back
             if k % 3 == 0 && n <= 6 {
@@ -408,13 +562,13 @@ fn c04<X: L>(c: &mut Ctx, n: usize) {
     }
     if n == 7 && c.thorough && X::TY == "D" {
         let t = gen_table(&mut c.rng, n, Kind::Uniform);
-        let x = X::mk(n, &t);
+        let x = mkr::<X>(n, &t);
         canon_all(c, &x, false, false, true);
     }
     // already-canonical inputs at the sizes that use the run-time generated sequences
     if n >= 7 {
         let t = gen_table(&mut c.rng, n, Kind::Uniform);
-        let x = X::mk(n, &t);
+        let x = mkr::<X>(n, &t);
         if let Some((l, _)) = call(|| x.p_canon_()) {
             canon_all(c, &l, true, false, false);
         }
@@ -431,7 +585,7 @@ fn c04<X: L>(c: &mut Ctx, n: usize) {
         // N: all 2^(n+1) complementations
         for mask in 0..(1usize << n) {
             for out in [false, true] {
-                let x = X::mk(n, &transform_table(n, &base, &id, mask, out));
+                let x = mkr::<X>(n, &transform_table(n, &base, &id, mask, out));
                 canon_all(c, &x, false, true, false);
             }
         }
@@ -442,7 +596,7 @@ fn c04<X: L>(c: &mut Ctx, n: usize) {
             (0..(if c.thorough { 200 } else if n == 7 { 24 } else { 10 })).map(|_| random_perm(&mut c.rng, n)).collect()
         };
         for perm in perms.iter() {
-            let x = X::mk(n, &transform_table(n, &base, perm, 0, false));
+            let x = mkr::<X>(n, &transform_table(n, &base, perm, 0, false));
             canon_all(c, &x, true, false, false);
         }
         // NPN: the whole orbit at n = 4, a sample at n = 5, 6
@@ -464,7 +618,7 @@ fn c04<X: L>(c: &mut Ctx, n: usize) {
                     .collect()
             };
             for (perm, mask, out) in members {
-                let x = X::mk(n, &transform_table(n, &base, &perm, mask, out));
+                let x = mkr::<X>(n, &transform_table(n, &base, &perm, mask, out));
                 canon_all(c, &x, false, false, true);
             }
         }
@@ -570,15 +724,15 @@ fn c06<X: L>(c: &mut Ctx, n: usize) {
     let ty = X::TY;
     let mut emit_all = |c: &mut Ctx, x: &X, v: usize| {
         let r = call(|| x.top_decomposition_(v));
-        c.emit("top_decomposition", ty, &[fl(x), fx(v)], r.map(|d| format!("{:?}", d)));
+        c.emit("top_decomposition", ty, &[fa(x), fx(v)], r.map(|d| format!("{:?}", d)));
         let r = call(|| x.is_pos_unate_(v));
-        c.emit("is_pos_unate", ty, &[fl(x), fx(v)], r.map(fb));
+        c.emit("is_pos_unate", ty, &[fa(x), fx(v)], r.map(fb));
         let r = call(|| x.is_neg_unate_(v));
-        c.emit("is_neg_unate", ty, &[fl(x), fx(v)], r.map(fb));
+        c.emit("is_neg_unate", ty, &[fa(x), fx(v)], r.map(fb));
     };
     if n <= 2 || (n == 3 && c.thorough) {
         for t in all_tables(n) {
-            let x = X::mk(n, &t);
+            let x = mkr::<X>(n, &t);
             for v in 0..n {
                 emit_all(c, &x, v);
             }
@@ -586,12 +740,12 @@ fn c06<X: L>(c: &mut Ctx, n: usize) {
     }
     for v in 0..n {
         for t in almost_p_tables(&mut c.rng, n, v) {
-            let x = X::mk(n, &t);
+            let x = mkr::<X>(n, &t);
             emit_all(c, &x, v);
         }
         let k = if c.thorough { 2 } else { 1 };
         for _ in 0..k {
-            let x = X::mk(n, &gen_table(&mut c.rng, n, Kind::Uniform));
+            let x = mkr::<X>(n, &gen_table(&mut c.rng, n, Kind::Uniform));
             emit_all(c, &x, v);
         }
     }
@@ -619,7 +773,7 @@ fn c07<X: L>(c: &mut Ctx, n: usize) {
     let ty = X::TY;
     let emit = |c: &mut Ctx, ls: &Vec<X>| {
         let r = call(|| X::bdd_(ls.as_slice()));
-        let a = if ls.is_empty() { "-".to_string() } else { ls.iter().map(|l| fl(l)).collect::<Vec<_>>().join(";") };
+        let a = if ls.is_empty() { "-".to_string() } else { ls.iter().map(|l| fa(l)).collect::<Vec<_>>().join(";") };
         c.emit("bdd_complexity", ty, &[n.to_string(), a], r.map(|v| v.to_string()));
     };
     emit(c, &Vec::new());
@@ -628,17 +782,18 @@ fn c07<X: L>(c: &mut Ctx, n: usize) {
             if n == 4 && i % 8 != 3 {
                 continue;
             }
-            emit(c, &vec![X::mk(n, &t)]);
+            emit(c, &vec![mkr::<X>(n, &t)]);
         }
     }
     if n <= 2 {
         for a in all_tables(n) {
             for b in all_tables(n) {
-                emit(c, &vec![X::mk(n, &a), X::mk(n, &b)]);
+                emit(c, &vec![mkr::<X>(n, &a), mkr::<X>(n, &b)]);
             }
         }
     }
-    let rounds = if c.thorough { 24 } else { 8 };
+    // (the small sizes are cheap on the model: more lists there, so that the construction routes get their chance)
+    let rounds = if c.thorough { 24 } else if n <= 5 { 32 } else { 8 };
     for r in 0..rounds {
         let len = 1 + c.rng.below(4);
         let mut ls: Vec<X> = Vec::new();
@@ -649,7 +804,7 @@ fn c07<X: L>(c: &mut Ctx, n: usize) {
                 2 => Kind::Symmetricish,
                 _ => KINDS[c.rng.below(KINDS.len())],
             };
-            ls.push(X::mk(n, &gen_table(&mut c.rng, n, kind)));
+            ls.push(mkr::<X>(n, &gen_table(&mut c.rng, n, kind)));
         }
         emit(c, &ls);
         // permuted, duplicated, complemented variants of the same list
@@ -724,17 +879,17 @@ fn c08<X: L>(c: &mut Ctx, n: usize) {
         }
     }
     for (a, b) in pairs.iter() {
-        let xa = X::mk(n, a);
-        let xb = X::mk(n, b);
+        let xa = mkr::<X>(n, a);
+        let xb = mkr::<X>(n, b);
         let r = call(|| xa.cmp(&xb));
-        c.emit("cmp", ty, &[fl(&xa), fl(&xb)], r.map(fcmp));
+        c.emit("cmp", ty, &[fa(&xa), fa(&xb)], r.map(fcmp));
         let r = call(|| xa == xb);
-        c.emit("eq", ty, &[fl(&xa), fl(&xb)], r.map(fb));
+        c.emit("eq", ty, &[fa(&xa), fa(&xb)], r.map(fb));
         let r = call(|| hash_of(&xa) == hash_of(&xb));
-        c.emit("hash_eq", ty, &[fl(&xa), fl(&xb)], r.map(fb));
+        c.emit("hash_eq", ty, &[fa(&xa), fa(&xb)], r.map(fb));
         // partial_cmp / lt must agree with cmp
         let r = call(|| xa.partial_cmp(&xb).unwrap());
-        c.emit("cmp.partial", ty, &[fl(&xa), fl(&xb)], r.map(fcmp));
+        c.emit("cmp.partial", ty, &[fa(&xa), fa(&xb)], r.map(fcmp));
     }
     // iterator
     let k: usize = match (n, c.thorough) {
@@ -809,21 +964,21 @@ fn c09_print<X: L>(c: &mut Ctx, n: usize) {
     let ty = X::TY;
     let tables: Vec<Vec<u64>> = if n <= 3 { all_tables(n) } else { sample_tables(&mut c.rng, n, if c.thorough { 4 } else { 1 }) };
     for (i, t) in tables.iter().enumerate() {
-        let x = X::mk(n, t);
+        let x = mkr::<X>(n, t);
         let r = call(|| x.to_hex_());
         let hex = r.clone();
-        c.emit("to_hex", ty, &[fl(&x)], r.map(|s| fbytes(s.as_bytes())));
+        c.emit("to_hex", ty, &[fa(&x)], r.map(|s| fbytes(s.as_bytes())));
         if n <= 8 || i % 3 == 0 {
             let r = call(|| x.to_bin_());
-            c.emit("to_bin", ty, &[fl(&x)], r.map(|s| fbytes(s.as_bytes())));
+            c.emit("to_bin", ty, &[fa(&x)], r.map(|s| fbytes(s.as_bytes())));
         }
         let r = call(|| format!("{}", x));
-        c.emit("display", ty, &[fl(&x)], r.map(|s| fbytes(s.as_bytes())));
+        c.emit("display", ty, &[fa(&x)], r.map(|s| fbytes(s.as_bytes())));
         let r = call(|| format!("{:x}", x));
-        c.emit("lowerhex", ty, &[fl(&x)], r.map(|s| fbytes(s.as_bytes())));
+        c.emit("lowerhex", ty, &[fa(&x)], r.map(|s| fbytes(s.as_bytes())));
         if n <= 8 || i % 3 == 0 {
             let r = call(|| format!("{:b}", x));
-            c.emit("binary", ty, &[fl(&x)], r.map(|s| fbytes(s.as_bytes())));
+            c.emit("binary", ty, &[fa(&x)], r.map(|s| fbytes(s.as_bytes())));
         }
         // round trip and upper case
         if let Some(h) = hex {
@@ -1020,6 +1175,22 @@ where
         let r = call(|| volute::StaticLut::<N, T>::from_blocks(&b));
         c.emit("from_blocks", "S", &[n.to_string(), flist(&b)], r.map(|l| fl(&l)));
     }
+}
+
+fn c10_all_conv(c: &mut Ctx) {
+    c10_conv::<0, 1>(c);
+    c10_conv::<1, 1>(c);
+    c10_conv::<2, 1>(c);
+    c10_conv::<3, 1>(c);
+    c10_conv::<4, 1>(c);
+    c10_conv::<5, 1>(c);
+    c10_conv::<6, 1>(c);
+    c10_conv::<7, 2>(c);
+    c10_conv::<8, 4>(c);
+    c10_conv::<9, 8>(c);
+    c10_conv::<10, 16>(c);
+    c10_conv::<11, 32>(c);
+    c10_conv::<12, 64>(c);
 }
 
 fn c10_ints(c: &mut Ctx) {
@@ -1322,6 +1493,29 @@ fn c02<X: L>(c: &mut Ctx, n: usize) {
             }));
         }
     }
+    // the iterator past its end: whatever it still yields is a value obtained through the public API
+    if n <= 3 {
+        let extra = 5usize;
+        let r = call(|| {
+            let mut it = X::all_functions_(n);
+            let mut cnt = 0usize;
+            while it.next().is_some() {
+                cnt += 1;
+                if cnt > (1usize << (1 << n)) + 2 {
+                    break;
+                }
+            }
+            let mut items = vec![cnt.to_string()];
+            for _ in 0..extra {
+                items.push(match it.next() {
+                    Some(l) => fl(&l),
+                    None => "none".to_string(),
+                });
+            }
+            items.join(";")
+        });
+        c.emit("all_functions_after", ty, &[n.to_string(), extra.to_string()], r);
+    }
     for _ in 0..programs {
         let mut pool: Vec<X> = Vec::new();
         // start from constructors
@@ -1561,6 +1755,7 @@ fn main() {
     let thorough = args[2] == "thorough";
     let seed: u64 = args[3].parse().unwrap_or(1);
     let mut ctx = Ctx { out: std::io::BufWriter::new(std::io::stdout()), id: 0, rng: Rng(seed.wrapping_mul(0x2545F4914F6CDD1D) ^ 0xC0FFEE), thorough };
+    route_seed(seed);
     let c = &mut ctx;
     match prop {
         "C01" => {
@@ -1580,6 +1775,9 @@ fn main() {
             for_static!(c, c02, 0..=9usize);
             c02::<Lut>(c, 12);
             c02::<volute::Lut12>(c, 12);
+            // conversions between the two types (every LutN from a Lut of every size, dense tables): whatever they
+            // return is a value obtained through the public API
+            c10_all_conv(c);
         }
         "C03" => {
             for n in 0..=14 {
@@ -1628,19 +1826,7 @@ fn main() {
         }
         "C10" => {
             for_static!(c, c10_static, 0..=12usize);
-            c10_conv::<0, 1>(c);
-            c10_conv::<1, 1>(c);
-            c10_conv::<2, 1>(c);
-            c10_conv::<3, 1>(c);
-            c10_conv::<4, 1>(c);
-            c10_conv::<5, 1>(c);
-            c10_conv::<6, 1>(c);
-            c10_conv::<7, 2>(c);
-            c10_conv::<8, 4>(c);
-            c10_conv::<9, 8>(c);
-            c10_conv::<10, 16>(c);
-            c10_conv::<11, 32>(c);
-            c10_conv::<12, 64>(c);
+            c10_all_conv(c);
             c10_ints(c);
             // the same operations on both types with identical inputs (seeded identically per size)
             for n in 0..=12usize {
@@ -1684,6 +1870,13 @@ fn main() {
                     c.rng = Rng(s);
                     with_static!(n, c04(&mut *c, n));
                 }
+                if n <= 8 {
+                    // strings: identical functions on both types
+                    c.rng = Rng(s);
+                    c09_print::<Lut>(c, n);
+                    c.rng = Rng(s);
+                    with_static!(n, c09_print(&mut *c, n));
+                }
                 c.rng = Rng(s.wrapping_add(1));
             }
         }
@@ -1712,6 +1905,8 @@ fn main() {
                 c11::<Lut>(c, n);
             }
             for_static!(c, c11, 0..=8usize);
+            // conversions: a table with a different number of variables is refused (Err), in both profiles
+            c10_all_conv(c);
             // the parser takes arbitrary strings: every one is a valid argument (Ok or Err, never a panic, in both profiles)
             for n in 0..=4 {
                 c09_parse::<Lut>(c, n);
